@@ -492,6 +492,20 @@ def from_float_oracle(a, ft):
     return None if ok else 'not the smallest integer pixel box containing the rectangle'
 
 
+def boxalg_oracle(a, b, u, it):
+    """union = smallest box containing both pixel sets, intersection = the common pixels (None iff none)"""
+    pa = {(y, x) for y in range(a[2], a[3]) for x in range(a[0], a[1])}
+    pb = {(y, x) for y in range(b[2], b[3]) for x in range(b[0], b[1])}
+    pi = set() if it is None else {(y, x) for y in range(it[2], it[3]) for x in range(it[0], it[1])}
+    al = pa | pb
+    want_u = (min(p[1] for p in al), max(p[1] for p in al) + 1, min(p[0] for p in al), max(p[0] for p in al) + 1)
+    if tuple(u) != want_u:
+        return f'union {u} is not the smallest box {want_u} containing both boxes'
+    if pi != (pa & pb):
+        return 'intersection is not the set of common pixels'
+    return None
+
+
 def slices_oracle(b, shape, sl, ss):
     """pixel-set semantics of get_overlap_slices; returns a message or None"""
     ny, nx = shape
@@ -596,14 +610,14 @@ def gen_mask_case(rng, tier):
     sizes = [v for k, v in params.items() if k != 'theta']
     ext = max(sizes) if fam not in ('rect', 'rannulus') else 0.5 * math.hypot(max(sizes), max(sizes))
     area_est = (2 * ext + 2) ** 2 * (2 if fam.endswith('annulus') else 1) * (1 if exact_arith else 2)
-    budget = 5000 if tier == 'quick' else 20000
+    budget = 5000 if tier == 'quick' else 8000
     if method == 'exact' and fam in ('rect', 'rannulus') and area_est * 1024 > 12 * budget:
         method = 'subpixel'
     if method == 'center' and area_est > budget:
         method = 'exact' if fam not in ('rect', 'rannulus') else 'center'
     if method == 'subpixel':
-        allowed = [s_ for s_ in (1, 2, 3, 4, 5, 7, 8, 16, 32) if s_ * s_ * area_est <= budget] or [1]
-        sub = rng.choice(allowed[-4:])
+        allowed = [s_ for s_ in range(1, 33) if s_ * s_ * area_est <= budget] or [1]
+        sub = rng.choice(allowed[-5:] + [s_ for s_ in (1, 2, 4, 8, 16, 32) if s_ in allowed])
     else:
         sub = rng.choice([1, 5])
     return dict(fam=fam, params=params, px=px, py=py, method=method, sub=sub, lat=lat, pos_kind=pos_kind,
@@ -809,7 +823,7 @@ def run(ctx):
         ctx.broken_obligation('pyx-untranslatable', {'error': repr(e)})
         ctx.stat('text', 'untranslatable', 1)
     # ---------------- masks ----------------
-    n = 260 if quick else 2200
+    n = 260 if quick else 900
     coq_cases, descr = [], []
     text_differs = 0
 
@@ -819,10 +833,16 @@ def run(ctx):
 
     for k in range(n):
         case = gen_mask_case(rng, ctx.tier)
-        aper = make_aperture(case)
-        m = aper.to_mask(method=case['method'], subpixels=case['sub'])
-        bb = (m.bbox.ixmin, m.bbox.ixmax, m.bbox.iymin, m.bbox.iymax)
         key = case_key(case)
+        try:
+            aper = make_aperture(case)
+            m = aper.to_mask(method=case['method'], subpixels=case['sub'])
+        except Exception as e:   # noqa: BLE001
+            ctx.count_case(key, True)
+            ctx.violation(f'to_mask:{case["fam"]}:raises', f'to_mask raises {type(e).__name__}: {e}',
+                          mask_rep(case, 'compiled'))
+            continue
+        bb = (m.bbox.ixmin, m.bbox.ixmax, m.bbox.iymin, m.bbox.iymax)
         rect, mode, s_eff, use_exact = eff_sub(case)
         ctx.stat('family', case['fam'])
         ctx.stat('method', case['method'])
@@ -880,10 +900,15 @@ def run(ctx):
             'what': 'the re-interpreted .pyx text no longer computes what the compiled kernels compute '
                     '(stale extension module or edited kernel source)', 'masks_differing': text_differs})
     # ---------------- huge shapes: python oracles only ----------------
-    for k in range(12 if quick else 80):
+    for k in range(12 if quick else 60):
         case = gen_huge_case(rng)
-        aper = make_aperture(case)
-        m = aper.to_mask(method=case['method'], subpixels=1)
+        try:
+            aper = make_aperture(case)
+            m = aper.to_mask(method=case['method'], subpixels=1)
+        except Exception as e:   # noqa: BLE001
+            ctx.violation(f'to_mask:{case["fam"]}:raises', f'to_mask raises {type(e).__name__}: {e}',
+                          mask_rep(case, 'compiled'))
+            continue
         bb = (m.bbox.ixmin, m.bbox.ixmax, m.bbox.iymin, m.bbox.iymax)
         ctx.stat('family', case['fam'] + '-huge')
         ctx.count_case(case_key(case), True)
@@ -896,7 +921,7 @@ def run(ctx):
                               'from "pixel centre strictly inside"',
                               mask_rep(case, 'compiled'))
     # ---------------- integer-shift covariance of masks (from_float_shift) ----------------
-    for k in range(40 if quick else 300):
+    for k in range(40 if quick else 200):
         case = gen_mask_case(rng, 'quick')
         if case['pos_kind'] in ('far', 'double-far') or not case['lat']:
             continue
@@ -915,7 +940,7 @@ def run(ctx):
                                ('fam', 'params', 'px', 'py', 'method', 'sub')}))
     # ---------------- bounding-box algebra, from_float and slices ----------------
     from photutils.aperture import BoundingBox
-    nb = 300 if quick else 3000
+    nb = 300 if quick else 2000
     box_descr = []
     for k in range(nb):
         x0, y0 = rng.randint(-8, 12), rng.randint(-8, 12)
@@ -946,15 +971,9 @@ def run(ctx):
         u = bb_ | bb2
         it = bb_ & bb2
         ut = (u.ixmin, u.ixmax, u.iymin, u.iymax)
-        pa = {(y, x) for y in range(b[2], b[3]) for x in range(b[0], b[1])}
-        pb = {(y, x) for y in range(b2[2], b2[3]) for x in range(b2[0], b2[1])}
-        pu = {(y, x) for y in range(ut[2], ut[3]) for x in range(ut[0], ut[1])}
-        ok_u = (pa | pb) <= pu and ut == (min(p[1] for p in pa | pb), max(p[1] for p in pa | pb) + 1,
-                                           min(p[0] for p in pa | pb), max(p[0] for p in pa | pb) + 1)
-        pi = set() if it is None else {(y, x) for y in range(it.iymin, it.iymax) for x in range(it.ixmin, it.ixmax)}
-        if not ok_u or pi != (pa & pb):
-            ctx.violation('BoundingBox:union/intersection', 'union is not the smallest box containing both / '
-                          'intersection is not the common pixels', dict(kind='boxalg', a=list(b), b=list(b2)))
+        msg = boxalg_oracle(b, b2, ut, None if it is None else (it.ixmin, it.ixmax, it.iymin, it.iymax))
+        if msg:
+            ctx.violation('BoundingBox:union/intersection', msg, dict(kind='boxalg', a=list(b), b=list(b2)))
         coq_cases.append(f'CUnion {coq(b)} {coq(b2)} {coq(ut)}')
         descr.append((dict(kind='boxalg', a=list(b), b=list(b2)), 'box'))
         coq_cases.append(f'CInter {coq(b)} {coq(b2)} '
@@ -983,18 +1002,17 @@ def run(ctx):
         descr.append((dict(kind='from_float', args=[xs[0], xs[1], ys[0], ys[1]]), 'box'))
     ctx.stat('generator', 'box_algebra_cases', nb)
     # ---------------- K: evaluate the model in Coq ----------------
-    bad = ctx.coq_eval_cases(['C01_Model'], 'check_case', coq_cases, case_type='case', shard_numerals=6000)
+    bad = ctx.coq_eval_cases(['C01_Model'], 'check_case', coq_cases, case_type='case', shard_numerals=4000)
     ctx.stat('coq', 'disagreements', len(bad))
     for i in bad[:12]:
         d, source = descr[i]
         if source == 'box':
-            msg = None
-            if d['kind'] == 'slices':
-                sl, ss = BoundingBox(*d['box']).get_overlap_slices(tuple(d['shape']))
-                msg = slices_oracle(tuple(d['box']), tuple(d['shape']), sl, ss)
+            msg = box_replay(d, verbose=False)
             if msg:
-                cls = 'zero-size-image' if 0 in d['shape'] else 'pixel-set'
-                ctx.violation(f'get_overlap_slices:{cls}', msg, d)
+                sig = {'slices': 'get_overlap_slices:' + ('zero-size-image' if 0 in d.get('shape', [1]) else 'pixel-set'),
+                       'boxalg': 'BoundingBox:union/intersection',
+                       'from_float': 'BoundingBox.from_float:not-minimal'}[d['kind']]
+                ctx.violation(sig, msg, d)
             else:
                 ctx.violation('correspondence:C01_Model.check_case:' + d['kind'], 'BoundingBox result differs from '
                               'the proved model although the pixel-set oracle accepts it',
@@ -1065,7 +1083,12 @@ def replay_mask(rep, ns=None, verbose=True):
         bbx = aper._bbox[0]
         data = text_mask(ns, case, aper)
     else:
-        m = aper.to_mask(method=case['method'], subpixels=case['sub'])
+        try:
+            m = aper.to_mask(method=case['method'], subpixels=case['sub'])
+        except Exception as e:   # noqa: BLE001
+            if verbose:
+                print('input:', case, '\n  FAIL: to_mask raises', type(e).__name__, e)
+            return f'to_mask raises {type(e).__name__}: {e}'
         bbx, data = m.bbox, m.data
     bb = (bbx.ixmin, bbx.ixmax, bbx.iymin, bbx.iymax)
     rect, mode, s_eff, use_exact = eff_sub(case)
@@ -1098,6 +1121,28 @@ def replay_mask(rep, ns=None, verbose=True):
     return '; '.join(msgs)
 
 
+def box_replay(r, verbose=True):
+    """slices / from_float / union+intersection inputs against their pixel-set oracles"""
+    from photutils.aperture import BoundingBox
+    kind = r['kind']
+    if kind == 'slices':
+        sl, ss = BoundingBox(*r['box']).get_overlap_slices(tuple(r['shape']))
+        if verbose:
+            print('box', r['box'], 'shape', r['shape'], '->', sl, ss)
+        return slices_oracle(tuple(r['box']), tuple(r['shape']), sl, ss)
+    if kind == 'from_float':
+        f = BoundingBox.from_float(*r['args'])
+        if verbose:
+            print('from_float', r['args'], '->', f)
+        return from_float_oracle(r['args'], (f.ixmin, f.ixmax, f.iymin, f.iymax))
+    a, b = BoundingBox(*r['a']), BoundingBox(*r['b'])
+    u, it = a | b, a & b
+    if verbose:
+        print('union', u, 'intersection', it)
+    return boxalg_oracle(tuple(r['a']), tuple(r['b']), (u.ixmin, u.ixmax, u.iymin, u.iymax),
+                         None if it is None else (it.ixmin, it.ixmax, it.iymin, it.iymax))
+
+
 def replay(obj):
     r = obj['replay']
     kind = r.get('kind') if isinstance(r, dict) else None
@@ -1106,27 +1151,8 @@ def replay(obj):
     msg = None
     if kind == 'mask':
         msg = replay_mask(r)
-    elif kind == 'slices':
-        sl, ss = BoundingBox(*r['box']).get_overlap_slices(tuple(r['shape']))
-        print('box', r['box'], 'shape', r['shape'], '->', sl, ss)
-        msg = slices_oracle(tuple(r['box']), tuple(r['shape']), sl, ss)
-    elif kind == 'to_image':
-        msg = to_image_check(r)
-    elif kind == 'from_float':
-        f = BoundingBox.from_float(*r['args'])
-        print('from_float', r['args'], '->', f)
-        msg = from_float_oracle(r['args'], (f.ixmin, f.ixmax, f.iymin, f.iymax))
-    elif kind == 'boxalg':
-        a, b = BoundingBox(*r['a']), BoundingBox(*r['b'])
-        print('union', a | b, 'intersection', a & b)
-        u, it = a | b, a & b
-        pa = {(y, x) for y in range(a.iymin, a.iymax) for x in range(a.ixmin, a.ixmax)}
-        pb = {(y, x) for y in range(b.iymin, b.iymax) for x in range(b.ixmin, b.ixmax)}
-        pi = set() if it is None else {(y, x) for y in range(it.iymin, it.iymax) for x in range(it.ixmin, it.ixmax)}
-        ok = pi == (pa & pb) and (u.ixmin, u.ixmax, u.iymin, u.iymax) == (
-            min(p[1] for p in pa | pb), max(p[1] for p in pa | pb) + 1, min(p[0] for p in pa | pb),
-            max(p[0] for p in pa | pb) + 1)
-        msg = None if ok else 'union/intersection wrong'
+    elif kind in ('slices', 'from_float', 'boxalg'):
+        msg = box_replay(r)
     elif kind == 'shift':
         case = dict(fam=r['fam'], params=r['params'], px=r['px'], py=r['py'], method=r['method'], sub=r['sub'])
         m1 = make_aperture(case).to_mask(method=case['method'], subpixels=case['sub'])
